@@ -123,4 +123,6 @@ func registerStream() {
 
 func registerAll() {
 	registerStream()
+	registerC01()
+	registerProc()
 }
